@@ -65,7 +65,9 @@ func printReplay(e *env) error {
 		isoOf := func(d int) string { return at(d).Format("2006-01-02") }
 		var lg strings.Builder
 		notes := map[int][][2]string{} // day index -> notes
+		var blockStart []int
 		for di, d := range c.Log {
+			blockStart = append(blockStart, lg.Len())
 			lg.WriteString(dateOf(d.Date) + ":\n")
 			nn := rng.Intn(3)
 			for i := 0; i < nn; i++ {
@@ -162,6 +164,57 @@ func printReplay(e *env) error {
 				if err3 != nil || cp != cb {
 					e.mismatch("print-period-differs", site, fmt.Sprintf("print -b %s | csv log gives %q, csv log -b gives %q (%v)", b, cp, cb, err3), rec)
 				}
+			}
+		}
+		// (5) a log that is NOT in date order and repeats a date (day 2, day 1, day 2 again) under periods given at the
+		// global position, on the sub-command, or both: exactly the blocks whose date lies in the period, each
+		// printed as it is printed alone, in file order
+		if len(c.Log) == 2 && c.Log[0].Date != c.Log[1].Date {
+			b1, b2 := log[blockStart[0]:blockStart[1]], log[blockStart[1]:]
+			pa, e1 := run(b1, "print")
+			pb, e2 := run(b2, "print")
+			if e1 == nil && e2 == nil {
+				log3 := b2 + b1 + b2
+				d1, d2 := dateOf(c.Log[0].Date), dateOf(c.Log[1].Date)
+				lo, hi, plo, phi := d1, d2, pa, pb
+				if at(c.Log[0].Date).After(at(c.Log[1].Date)) {
+					lo, hi, plo, phi = d2, d1, pb, pa
+				}
+				_, _ = hi, plo
+				// file order of log3: block2, block1, block2
+				sel := func(keep1, keep2 bool) string {
+					out := ""
+					if keep2 {
+						out += pb
+					}
+					if keep1 {
+						out += pa
+					}
+					if keep2 {
+						out += pb
+					}
+					return out
+				}
+				first1 := lo == d1 // block 1 carries the earlier date
+				for _, v := range []struct {
+					args []string
+					want string
+				}{
+					{[]string{"print"}, sel(true, true)},
+					{[]string{"print", "-e", lo}, sel(first1, !first1)},
+					{[]string{"-e", lo, "print"}, sel(first1, !first1)},
+					{[]string{"print", "-b", hi}, sel(!first1, first1)},
+					{[]string{"-b", hi, "print"}, sel(!first1, first1)},
+					{[]string{"-b", lo, "print", "-e", lo}, sel(first1, !first1)},
+					{[]string{"-b", hi, "-e", lo, "print", "-b", lo, "-e", hi}, sel(true, true)}, // the sub-command's period overrides the (empty) global one
+				} {
+					got, err := run(log3, v.args...)
+					if err != nil || got != v.want {
+						e.mismatch("print-period-differs", site, fmt.Sprintf("%v on the log (day %s, day %s, day %s again) prints %q (err %v); the blocks of the period printed alone give %q", v.args, d2, d1, d2, got, err, v.want), rec)
+						break
+					}
+				}
+				_ = phi
 			}
 		}
 		// the same with the date format coming from the configuration file or the environment (real binary)
